@@ -49,3 +49,128 @@ TRIVIA = {
 TRIVIA_SIGMA = {
     "none": "", "ws": " ", "ws_loud": " ", "cm2": "#!", "both": " #!", "ws_choice": " \t", "cm1": "#", "both_loud": " #",
 }
+
+
+# ----------------------------------------------------------------------------- the "C01 families"
+# (shared by C01, C06, C07, C13, C16: every expression kind in every nesting context)
+
+PUSH_AB = ("push", ("alt", (S("a"), S("b"))))
+T_STACK = (PUSH_AB, ("pop",), ("peek",), ("drop",), ("peekall",), ("popall",), ("pushlit", "b"), ("slice", 0, None))
+T_TAGGED = (("tag", "tt", R("n")), ("tag", "tt", ("grp", ("seq", (R("n"), S("b"))))))
+T_FULL = T_CORE + T_STACK + T_TAGGED
+MODS = ("", "_", "@", "$", "!")
+NEVER = S("!")          # '!' is in no input alphabet: HOLE ~ "!" commits HOLE and then fails
+REST = ("star", R("ANY"))
+
+
+def contexts():
+    """name -> (function hole -> (extra rules, start rule tuple)).  Each start rule is (modifier, body)."""
+    H = "HOLE"
+    ab = lambda h: ("grp", ("seq", (h, NEVER)))  # noqa: E731  inner commits, outer fails
+
+    def simple(f):
+        return lambda h, i: ((), ("", f(h)))
+
+    ctx = {
+        "plain": simple(lambda h: h),
+        "seq_left": simple(lambda h: ("seq", (h, S("b")))),
+        "seq_right": simple(lambda h: ("seq", (S("a"), h))),
+        "alt_abandon": simple(lambda h: ("alt", (("seq", (h, NEVER)), REST))),
+        "alt_second": simple(lambda h: ("alt", (S("b"), h))),
+        "opt_abandon": simple(lambda h: ("seq", (("opt", ab(h)), REST))),
+        "star_abandon": simple(lambda h: ("seq", (("star", ab(h)), REST))),
+        "plus_abandon": simple(lambda h: ("alt", (("plus", ab(h)), REST))),
+        "exact_abandon": simple(lambda h: ("alt", (("exact", ab(h), 2), REST))),
+        "min_abandon": simple(lambda h: ("alt", (("min", ab(h), 1), REST))),
+        "max_abandon": simple(lambda h: ("seq", (("max", ab(h), 2), REST))),
+        "minmax_abandon": simple(lambda h: ("alt", (("minmax", ab(h), 1, 2), REST))),
+        "and": simple(lambda h: ("seq", (("and", h), REST))),
+        "not": simple(lambda h: ("seq", (("not", h), REST))),
+        "and_abandon": simple(lambda h: ("alt", (("and", ab(h)), REST))),
+        "not_not": simple(lambda h: ("seq", (("not", ("not", h)), REST))),
+        "push": simple(lambda h: ("seq", (("push", h), REST))),
+        "push_peek": simple(lambda h: ("seq", (("push", h), ("peekall",), REST))),
+        "prepushed": simple(lambda h: ("seq", (("pushlit", "a"), h, REST))),
+        "prepushed_opt_abandon": simple(lambda h: ("seq", (("pushlit", "a"), ("opt", ab(h)), ("peekall",), REST))),
+    }
+    for m, mname in (("_", "silent"), ("@", "atomic"), ("$", "compound"), ("!", "nonatomic")):
+        for caller, cname in (("", "normal"), ("@", "atomic"), ("$", "compound")):
+            def f(h, i, m=m, caller=caller):
+                return ((f"h{i}", m, h),), (caller, ("seq", (R(f"h{i}"), REST)))
+            ctx[f"rule_{mname}_in_{cname}"] = f
+    return ctx
+
+
+def batch_specs(starts, base_rules, ins, kmode, family, batch=40):
+    """starts: list of (extra_rules, (mod, body)).  Start rules are named r<i>."""
+    out = []
+    for i in range(0, len(starts), batch):
+        rules = list(base_rules)
+        names = []
+        for j, (extra, (mod, body)) in enumerate(starts[i:i + batch]):
+            rules.extend(extra)
+            name = f"r{i + j}"
+            rules.append((name, mod, body))
+            names.append(name)
+        out.append(Spec(rules, names, ins, kmode, family))
+    return out
+
+
+C01_BOUNDS = {
+    # top: list of (n, modifiers, trivia configs); ctx: (hole size, trivia configs); L: max number of inputs
+    "quick": {"top": [(2, MODS, ("none", "ws", "cm2", "both")), (3, ("", "@"), ("none", "ws"))],
+              "ctx": (2, ("none", "ws")), "max_inputs": 90},
+    "thorough": {"top": [(3, MODS, ("none", "ws", "ws_loud", "cm2", "both", "ws_choice", "cm1")), (4, ("",), ("none", "ws"))],
+                 "ctx": (3, ("none", "ws", "cm2", "both")), "max_inputs": 400},
+}
+
+
+def length_for(alphabet: str, max_inputs: int) -> int:
+    L, total = 0, 1
+    while total + len(alphabet) ** (L + 1) <= max_inputs:
+        L += 1
+        total += len(alphabet) ** L
+    return L
+
+
+def c01_specs(tier: str, kmode: str = "zero", terminals=T_FULL, soi_free: bool = False, extra_sigma: str = "", max_inputs: int | None = None):
+    b = C01_BOUNDS[tier]
+    mi = max_inputs or b["max_inputs"]
+    env = gast.Env(HELPERS)
+    out = []
+    memo_bodies: dict = {}
+
+    def bodies(n):
+        if n not in memo_bodies:
+            memo_bodies[n] = gast.exprs_upto(n, tuple(terminals), gast.U_CORE, ("seq", "alt"), env)
+        return memo_bodies[n]
+
+    for n, mods, trivs in b["top"]:
+        for tv in trivs:
+            sigma = SIGMA_CORE + TRIVIA_SIGMA[tv] + extra_sigma
+            ins = inputs(sigma, length_for(sigma, mi))
+            starts = [((), (m, body)) for body in bodies(n) for m in mods]
+            out.extend(batch_specs(starts, TRIVIA[tv] + HELPERS, ins, kmode, f"top(n<={n},{tv})"))
+    hole_n, trivs = b["ctx"]
+    ctxs = contexts()
+    for tv in trivs:
+        sigma = SIGMA_CORE + TRIVIA_SIGMA[tv] + extra_sigma
+        ins = inputs(sigma, length_for(sigma, mi))
+        for cname, f in ctxs.items():
+            starts = []
+            for i, h in enumerate(bodies(hole_n)):
+                extra, start = f(h, i)
+                rules = TRIVIA[tv] + HELPERS + tuple(extra) + (("x", start[0], start[1]),)
+                if not gast.well_formed(rules):
+                    continue  # e.g. a repetition context around a nullable hole
+                starts.append((extra, start))
+            out.extend(batch_specs(starts, TRIVIA[tv] + HELPERS, ins, kmode, f"ctx({cname},hole<={hole_n},{tv})"))
+    return out
+
+
+def c01_rule_text():
+    return ("(a) top level: every expression with <= n nodes over {\"a\",\"b\",\"ab\",^\"a\",'a'..'b',ANY,EOI,n,s, PUSH(\"a\"|\"b\"),POP,PEEK,DROP,PEEK_ALL,POP_ALL,PUSH_LITERAL(\"b\"),PEEK[0..], #tt = n, #tt = (n ~ \"b\")} "
+            "with ( ) ? * + {2} {1,} {,2} {1,2} & ! ~ |, x start-rule modifier x trivia configuration; "
+            "(b) contexts: every hole expression placed at top level, left/right of a sequence, as an alternative that commits and is then abandoned ((HOLE ~ \"!\") | ANY*), under ? * + {2} {1,} {,2} {1,2} with the same abandon trick, "
+            "under & ! !! , inside PUSH( ), after a pre-pushed stack entry, and as the body of a _ @ $ ! rule called from a normal, an atomic and a compound parent (32 contexts); "
+            "x every string over {a,b,A}+trivia symbols up to the length bound; start rules are batched 40 per grammar and failing cases re-run on the isolated rule")
